@@ -12,6 +12,7 @@ import traceback
 
 import casadi as ca
 
+from vk.paths import REPO
 from vk import families
 from vk.report import Collector, EncodingGap, Report, run_parallel, std_args
 from vk.smt import modelio, pipeline
@@ -137,7 +138,7 @@ def main():
     items += [("delay", DELAY, "M"), ("attr-fun", ATTR, "M")]
     for name, cls in families.REPO_MODELS:
         if name in ("ForLoop", "FunctionCall", "DoubleFunctionCall", "IfElse", "Spring", "Aircraft", "Estimator", "ArrayExpressions", "MatrixExpressions"):
-            items.append((f"repo:{name}", open(f"/repo/test/models/{name}.mo").read(), cls))
+            items.append((f"repo:{name}", open(REPO + f"/test/models/{name}.mo").read(), cls))
     if args.tier == "thorough":
         ex = families.scalar_exprs("quick")
         items += [(f"scalar{i}", families.batch_model(ex[i:i + 12]), "M") for i in range(0, len(ex), 12)]
